@@ -41,9 +41,10 @@ const (
 	RowNilBound      = "nil-slice-bound"         // 0: as omitted, 1: error
 	RowVoidValue     = "valueless-as-value"      // 0: treated as nil, 1: error   (v1 only)
 	RowObjlessIndex  = "objectless-index"        // 0: error, 1: nil
+	RowNaNInColl     = "nan-inside-collection"   // 0: unequal (IEEE), 1: equal (same object)
 )
 
-var AllRows = []string{RowBoolArith, RowFloatMod, RowBoolNumEq, RowIntFloatEq, RowCollNumEq, RowUnaryBool, RowBoolCmp, RowStrSliceUnit, RowUndefCompound, RowNilBound, RowVoidValue, RowObjlessIndex}
+var AllRows = []string{RowBoolArith, RowFloatMod, RowBoolNumEq, RowIntFloatEq, RowCollNumEq, RowUnaryBool, RowBoolCmp, RowStrSliceUnit, RowUndefCompound, RowNilBound, RowVoidValue, RowObjlessIndex, RowNaNInColl}
 
 // Err is a script error predicted by the model.
 type Err struct {
@@ -234,7 +235,7 @@ type Interp struct {
 	File    string
 	Fuel    int
 	Size    int
-	MapLoop bool // a for-in over a map with >= 2 keys was executed: trace order is not unique
+	MapLoop bool             // a for-in over a map with >= 2 keys was executed: trace order is not unique
 	Stdout  *strings.Builder // what printf() wrote (shared with callees)
 
 	scopes  []scope
@@ -1044,7 +1045,13 @@ func (in *Interp) DeepEq(l, r any) bool {
 	// scalars inside collections
 	if reflect.TypeOf(l) == reflect.TypeOf(r) {
 		if f, ok := l.(float64); ok {
-			return f == r.(float64)
+			g := r.(float64)
+			if f != f || g != g {
+				// a NaN inside compared collections: structural equality of the same object says equal,
+				// IEEE comparison says different; the reference is silent
+				return in.opt(RowNaNInColl) == 1
+			}
+			return f == g
 		}
 		return l == r
 	}
@@ -1823,7 +1830,9 @@ func (in *Interp) use(n *gen.Node) (any, error) {
 }
 
 // Errf lets builtin models raise a script error located at node.
-func (in *Interp) Errf(node *gen.Node, format string, args ...any) error { return in.errf(node, format, args...) }
+func (in *Interp) Errf(node *gen.Node, format string, args ...any) error {
+	return in.errf(node, format, args...)
+}
 
 // Exit marks the current script as finished (exit()).
 func (in *Interp) Exit() { in.exit = true }
